@@ -698,3 +698,62 @@ def _order_destroying(ld: LocalDefs, e: ast.AST) -> str | None:
             if isinstance(n, (ast.Set, ast.SetComp)):
                 return "a set"
     return None
+
+
+# ------------------------------------------------------------------------------------------ R3h
+def r3h(ctx: Ctx) -> list[Ob]:
+    """R3h -- a pointer that survives folding points at a tensor that survives folding.
+
+    ``compile_reference_parameter`` may produce a pointer to a tensor of the *same* circuit (a layer
+    whose parameter is ``other.probs.ref()``).  Folding replaces that tensor by a slice of a folded
+    one and records the replacement in the registry (R3e); the pointer must follow: the target of a
+    folded pointer has to come out of a lookup keyed by the pre-fold target (the registry's
+    ``retrieve_compiled_parameter`` or any mapping / call taking the ``deref()`` value), either in the
+    function that folds pointer groups or in a pass over the folded circuit.  A target taken from
+    ``deref()`` alone is the unfolded tensor, which is no part of the folded circuit and is never
+    initialised."""
+    out: list[Ob] = []
+    f = ctx.repo.func(f"{COMPILER}._fold_parameter_nodes_group")
+    par: dict[int, ast.AST] = {}
+    for n in ast.walk(f.node):
+        for ch in ast.iter_child_nodes(n):
+            par[id(ch)] = n
+    derefs = [n for n in walk_no_nested(f.node) if isinstance(n, ast.Call) and isinstance(n.func, ast.Attribute) and n.func.attr == "deref" and not n.args]
+    if not derefs:
+        return [unres("R3h", f.qualname, "stale-pointer", "the pointer branch no longer calls deref(): no verdict", f.loc)]
+    ld = LocalDefs(f.node)
+    names = {k for k, ds in ld.defs.items() for d in ds if any(x is d or x in ast.walk(d) for x in derefs)}
+    looked_up = False
+    for n in walk_no_nested(f.node):
+        # X[<deref value>] / g(<deref value>) other than the pointer constructor itself
+        if isinstance(n, ast.Subscript) and any(isinstance(x, ast.Name) and x.id in names for x in ast.walk(n.slice)):
+            looked_up = True
+        if isinstance(n, ast.Call) and (dotted(n.func) or "").split(".")[-1] not in ("TorchPointerParameter", "isinstance", "len", "type"):
+            for a in list(n.args) + [k.value for k in n.keywords]:
+                if (isinstance(a, ast.Name) and a.id in names) or any(a is d for d in derefs):
+                    looked_up = True
+    # a pass over the folded circuit elsewhere in the module
+    post = None
+    for g in ctx.repo.iter_functions():
+        if g.module.name != COMPILER or g is f:
+            continue
+        txt = unparse(g.node)
+        if "TorchPointerParameter" in txt and ("retrieve_compiled_parameter" in txt or "_compiled_parameters" in txt) and "deref" in txt:
+            post = g
+    if looked_up:
+        out.append(ok("R3h", f.qualname, "stale-pointer", "the folded pointer's target is looked up from the pre-fold target", f.loc))
+    elif post is not None:
+        out.append(ok("R3h", f.qualname, "stale-pointer", f"pointers are re-resolved by {post.name}", post.loc))
+    else:
+        out.append(
+            viol(
+                "R3h",
+                f.qualname,
+                "stale-pointer",
+                "the target of a folded pointer is taken from deref() of the pre-fold pointer without any lookup: a pointer to a tensor of the "
+                "same circuit (a parameter shared between two layers through .ref()) keeps referring to the unfolded tensor that folding "
+                "replaced -- under fold=True the circuit raises 'tensor parameter has not been initialized' where the unfolded one evaluates",
+                f"{f.module.relpath}:{derefs[0].lineno}",
+            )
+        )
+    return out
